@@ -47,7 +47,7 @@ fn decode_line(line: &str) -> Option<Value> {
     }
 }
 
-fn start_watchdog(limit: Duration, current: Arc<std::sync::Mutex<String>>) {
+pub fn start_watchdog(limit: Duration, current: Arc<std::sync::Mutex<String>>) {
     std::thread::spawn(move || {
         let mut last = PROGRESS.load(Ordering::Relaxed);
         let mut since = Instant::now();
